@@ -98,6 +98,27 @@ CHECKS = {
         note="Batches are subsets of unobserved plates; NaN scores excluded; screens up to 10 plates.",
         technique="recording scorer/policy proxies + reference selection model over saved chunk files",
     ),
+    "C09": dict(
+        cat="exploration",
+        text="For random parameters of both sample types and screens of arity 1/2 with controls in any column: a scalar reference recomputes every mean from (sample, unordered non-control treatments); subsets, row permutations, column swaps and single-agent twins (rebuilt with the same mappings) must agree; viability/variance formulas checked; a purity monitor wrapped around every predict_* method hashes the sample and the screen before and after each call; stacked/averaged helpers compared with per-sample predictions.",
+        ref="4/C09",
+        note="Interaction sample type judged against its own documented link; tolerances 1e-12 relative to term magnitude.",
+        technique="scalar reference + metamorphic monitors + before/after hash purity monitor on predict_*",
+    ),
+    "C10": dict(
+        cat="exploration",
+        text="Holders of 1-25 samples per chain (both sample types, adversarial float64 parameters, unique tag per (chain, step)) are saved, loaded and compared bit for bit in order; concat is checked chain-major by tag identity; evaluate_model runs in-process with the chain files in random order and every prediction column / chain id is matched to the file position it came from; refusal clauses are exercised.",
+        ref="4/C10",
+        note="Value-preserving dtype widening on load accepted; h5py trusted.",
+        technique="round-trip differential with identity tags + CLI column/chain alignment monitor",
+    ),
+    "C20": dict(
+        cat="exploration",
+        text="Every listed metric (MSE, its variance over experiments, inter-chain variance, mean predictions, reload), single-agent effect maps/arrays (arity 2 and 3, repeated measurements), Bliss synergy (strict/lenient), calculate_mse, the full combinatoric space and the between-sample similarity matrix are recomputed by nested Python loops with math.fsum and compared.",
+        ref="4/C20",
+        note="Degenerate correlation rows (0/0) skipped and counted; inputs up to 30 experiments x 12 samples.",
+        technique="differential against loop-based reference implementations",
+    ),
 }
 
 NOT_BUILT_REASON = "check not built yet in this revision (planned, see DESIGN.md section 4)"
